@@ -23,12 +23,16 @@ struct Args {
     std::set<std::string> known; // signatures of listed known findings (attributed, not failures)
     std::map<std::string, std::string> kv; // any other --key value
     bool thorough() const { return tier == "thorough"; }
+    bool is_known(const std::string &sig) const;
     long num(const std::string &k, long dflt) const {
         auto it = kv.find(k);
         return it == kv.end() ? dflt : atol(it->second.c_str());
     }
 };
 Args parse_args(int argc, char **argv);
+// '*' wildcard match used for known-finding signatures (a family of signatures sharing a trace-point suffix)
+bool glob_match(const std::string &pat, const std::string &s);
+bool known_match(const std::set<std::string> &known, const std::string &sig);
 
 uint64_t fnv1a(const void *p, size_t n, uint64_t h = 1469598103934665603ULL);
 inline uint64_t fnv1a(const std::string &s, uint64_t h = 1469598103934665603ULL) { return fnv1a(s.data(), s.size(), h); }
